@@ -135,7 +135,11 @@ class Run:
     """One history on one scratch directory, with at most one planned crash."""
 
     def __init__(self, start, limit, seq_json=None):
-        self.dir = tempfile.mkdtemp(prefix="c13-")
+        # (memory-backed scratch space where there is some: tens of thousands of short-lived context directories are slow on a disk
+        # that other checks are using as well; what the property is about - the order of effects - is logged by the FS seam, not
+        # left to the file system)
+        shm = "/dev/shm"
+        self.dir = tempfile.mkdtemp(prefix="c13-", dir=shm if os.path.isdir(shm) and os.access(shm, os.W_OK | os.X_OK) else None)
         json.dump({"sender-id_hex": SID.hex(), "recipient-id_hex": RID.hex(), "secret_hex": SECRET.hex(), "salt_hex": SALT.hex(), "window": 4},
                   open(os.path.join(self.dir, "settings.json"), "w"))
         if seq_json is not None:
